@@ -190,6 +190,18 @@ def check_write(prop, tier, seed):
         plans.append(("badger", dict(BASE_CONSTS), "simulate", nsim // 8, 4, []))
         plans.append(("tikv", dict(BASE_CONSTS, ConflictCarriesValue=False), "simulate", nsim // 4, 8, []))
         plans.append(("metrics", dict(BASE_CONSTS), "simulate", nsim // 8, 4, []))
+        if prop == "C01":
+            # a compaction working through the key while the writers race on it: the deletions of the compactor (of old versions,
+            # of a tombstone, the compare-and-delete of a tombstoned index) are steps between the writers' reads and commits
+            comp = dict(BASE_CONSTS, Keys={1}, InitStates={"live", "live2", "deleted", "recreated"}, ExpSet={0, 1, 3, 4},
+                        Compactors={"k1"}, CompactRevs={0, 2, 4}, MaxCompacts=1, CompactDetail=True)
+            r = run_mc(work, comp, MC_INV[prop] + ["StaysWritable"], name="mccomp")
+            cov["states"] += r["distinct"]; cov["transitions"] += r["states"]
+            cov["mc_runs"].append(dict(config="2 writers, 1 key, a stepwise compactor", distinct_states=r["distinct"], states_generated=r["states"], invariants=MC_INV[prop] + ["StaysWritable"]))
+            log("MC 2 writers and a stepwise compactor: %d distinct states" % r["distinct"])
+            plans.append(("memkv", comp, "simulate", nsim // 4, 16, []))
+            plans.append(("badger", comp, "simulate", nsim // 16, 4, []))
+            plans.append(("tikv", dict(comp, ConflictCarriesValue=False, SnapAtTs=True), "simulate", nsim // 16, 8, []))
         if prop == "C02":
             # the revision counter: tso.Commit in two steps, so that a Deal can land between its load and its compare-and-swap
             tso = dict(BASE_CONSTS, SeqDetail=True, TsoDetail=True, InitStates={"none", "live"}, ExpSet={0, 1, 4})
